@@ -1,3 +1,6 @@
 import Geo.Props.C18
 open Geo
-#print axioms C18_placeholder
+#print axioms T18_common_point_is_meet
+#print axioms T18_meet_on_both
+#print axioms T18_parallel_meet_at_infinity
+#print axioms T18_collinear_gives_zero
